@@ -86,5 +86,23 @@ pub fn cut_sign_sub_nodes(sub_nodes: &mut HashMap<String, Vec<InsertEntity>>, si
             // [everything_a_mutation_writes_is_signed] after a successful sign_all the entity's row (when it has one), each of its new references and every nested entity are signed
             r is Ok ==> tree_signed(*final(self)),
 //@ end
+
+pub struct MutationParser { x: u8 }
+//@ extract src/database/mutation_query.rs :: struct MutationQuery
+//@ rewrite E3 "Arc<MutationParser>" => "Box<MutationParser>" x1
+//@ end
+//@ extract src/database/mutation_query.rs :: impl MutationQuery / fn sign_all
+//@ result r
+//@ attr #[verifier::loop_isolation(false)]
+//@ attr #[verifier::exec_allows_no_decreases_clause]
+//@ rewrite E17 "(?<=for insert in )&mut self\.mutate_entities(?= \{)" => "self.mutate_entities.iter_mut()" x1
+//@ loop "for insert in" iter it
+            invariant forall|i: int| 0 <= i < it.index@ ==> tree_signed(*final(#[trigger] it.seq()[i])),
+//@ spec
+        ensures
+            // [every_entity_of_a_mutation_is_signed] a successful sign_all of a mutation has signed every one of its top-level entities (row, new references, nested entities); a failure of any of them is reported
+            r is Ok ==> forall|i: int| 0 <= i < final(self).mutate_entities@.len() ==> tree_signed(#[trigger] final(self).mutate_entities@[i]),
+            final(self).mutate_entities@.len() == old(self).mutate_entities@.len(),
+//@ end
 } // verus!
 fn main() {}
